@@ -433,6 +433,13 @@ def _sampling_alignment(ctx, repo):
                 for st in ast.walk(fn):
                     if isinstance(st, ast.Assign):
                         for t in st.targets:
+                            if isinstance(t, ast.Tuple) and isinstance(st.value, ast.Tuple) and len(t.elts) == len(st.value.elts):
+                                # a, b = ea, eb: element-wise definitions, each judged on its own
+                                for te, ve in zip(t.elts, st.value.elts):
+                                    if isinstance(te, ast.Name):
+                                        pseudo = ast.Assign(targets=[te], value=ve, lineno=st.lineno, col_offset=0)
+                                        defs.setdefault(te.id, []).append(pseudo)
+                                continue
                             for x in ast.walk(t):
                                 if isinstance(x, ast.Name):
                                     defs.setdefault(x.id, []).append(st)
